@@ -49,10 +49,16 @@ func TestDrv_C20(t *testing.T) {
 							lat = bounds[r.Intn(len(bounds))] + time.Duration(r.Intn(3)-1)
 						case 1:
 							lat = time.Duration(r.Intn(1000))
+						case 2: // spread evenly over the orders of magnitude between a microsecond and half a minute
+							lat = time.Duration(math.Exp(math.Log(1e3) + r.Float64()*(math.Log(29e9)-math.Log(1e3))))
 						}
 						e := []string{"", "", "connection refused", "context deadline exceeded", "EOF"}[r.Intn(5)]
-						rs[i] = vegeta.Result{Method: []string{"GET", "POST"}[r.Intn(2)], URL: []string{"http://a/", "http://b/x?y=1"}[r.Intn(2)],
-							Code: []uint16{200, 404, 0, 500}[r.Intn(4)], BytesIn: uint64(r.Intn(1 << 20)), BytesOut: uint64(r.Intn(1 << 10)), Latency: lat, Error: e}
+						few := 2
+						if cases%3 == 0 {
+							few = 1 // few label sets: each series sees many results
+						}
+						rs[i] = vegeta.Result{Method: []string{"GET", "POST"}[r.Intn(few)], URL: []string{"http://a/", "http://b/x?y=1"}[r.Intn(few)],
+							Code: []uint16{200, 404, 0, 500}[r.Intn(2*few)], BytesIn: uint64(r.Intn(1 << 20)), BytesOut: uint64(r.Intn(1 << 10)), Latency: lat, Error: e}
 					}
 					observe := func(x *vegeta.Result) {
 						pm.Observe(x)
